@@ -73,6 +73,8 @@ def run(run, args):
     hits = scan_shared_state()
     run.oblige("no interior mutability / unsafe shared state in the anchored files", not hits, "; ".join(hits[:4]))
     broken = standard_proof_obligations(run, "C08", THEOREMS) if THEOREMS else []
+    # any number of threads, each with a private generator, under any schedule of atomic calls: every thread sees what it would see alone
+    broken += standard_proof_obligations(run, "C08c", ["C08_interleaving_projection", "C08_interleaving_stateless", "C08_schedule_irrelevant"])
     if res[1]:
         h = by_id[res[1][0]]
         violation(run, {"failing_input": {"history_of_pool_indices": h["h"], "kind": h["kind"], "pool": [{k: r[k] for k in ("ents", "req", "charge", "carrier")} for r in pool],
